@@ -1,6 +1,6 @@
 (* Structural obligations tying model/C03_Leader.v to the code as it is now (gen/Gen_C03.v is
    regenerated from /repo on every run). *)
-From PDV Require Import lib.Skel gen.Gen_C03.
+From PDV Require Import lib.Skel gen.Gen_C03 proof.C04_Skel.
 
 (* Campaign: new lease object; Grant; one txn guarded by CreateRevision(leaderKey) = 0 that puts the
    record with the lease attached; the lease is closed on error and on a lost comparison. *)
@@ -64,3 +64,19 @@ Lemma leadertxn_sites_ok :
                   "server/member/member.go:DeleteMemberLeaderPriority"; "server/member/member.go:DeleteMemberDCLocationInfo";
                   "server/encryptionkm/key_manager.go:saveKeys"] -> In s leadertxn_sites.
 Proof. intros s H; cbn in H; cbn. repeat destruct H as [<-|H]; tauto. Qed.
+
+(* keep-alive: the renewed local expiry is request start + TTL (model: LKeepStart records the start, LKeepDone uses it);
+   the stored expiry only moves forward within one KeepAlive call *)
+Lemma keepalive_ok :
+  skel_keepAliveWorker =
+  [GoE [ForE [GoE [Call "Now"; Assign "start" ":= time.Now()"; Call "KeepAliveOnce"; IfE "err != nil" [Ret] []; IfE "res.TTL > 0" [Assign "expire" ":= start.Add(time.Duration(res.TTL) * time.Second)"] []]; SwitchE [[Ret]; []]]]; Ret] /\
+  skel_KeepAlive =
+  [Call "keepAliveWorker"; ForE [SwitchE [[Call "After"; IfE "t.After(maxExpire)" [Assign "maxExpire" "= t"; Call "Store"] []]; [Call "After"; Ret]; [Ret]]]].
+Proof. split; reflexivity. Qed.
+
+(* the id window is extended through the comparisons and in the order C04's obligations pin down (proof.C04_Skel is
+   imported: skel_rebaseLocked_ok, rebase_cmps_ok): in particular the in-memory window is adopted only after a
+   succeeded commit, so a member that no longer owns the record cannot serve ids from a window it failed to persist *)
+Lemma id_window_guard_ok : Gen_C04.rebase_cmps =
+  ["clientv3.CreateRevision(key) = 0"; "clientv3.Value(key) = string(value)"; "clientv3.Value(leaderPath) = alloc.member"].
+Proof. exact rebase_cmps_ok. Qed.
